@@ -404,6 +404,7 @@ type repState struct {
 	pos      int // events of this replica seen so far
 	badPos   int
 	badCode  int
+	badWhy   string // for an image read back after a power cut: which field was lost
 	sends    int
 	persists int
 	applies  int
@@ -457,10 +458,13 @@ func (r *repState) step(e event) {
 		switch {
 		case n.term < r.img.term:
 			code = codeTermRegress
+			r.badWhy = fmt.Sprintf("term-not-durable: SaveRaftState acknowledged term %d, after the power cut the store returns term %d", r.img.term, n.term)
 		case n.term == r.img.term && r.img.vote != 0 && n.vote != r.img.vote:
 			code = codeVoteChanged
+			r.badWhy = fmt.Sprintf("vote-not-durable: SaveRaftState acknowledged vote %d in term %d, after the power cut the store returns vote %d", r.img.vote, r.img.term, n.vote)
 		case n.term == r.ackTerm && r.ackIndex > n.lastDurable():
 			code = codeAckTruncated
+			r.badWhy = fmt.Sprintf("acknowledged-entries-not-durable: index %d was acknowledged in term %d, after the power cut the log ends at %d", r.ackIndex, r.ackTerm, n.lastDurable())
 		default:
 			have := map[ent]bool{}
 			for _, x := range n.log {
@@ -469,6 +473,7 @@ func (r *repState) step(e event) {
 			for _, x := range r.img.log {
 				if x.index > n.snapIndex && !have[x] {
 					code = codeEntriesLost
+					r.badWhy = fmt.Sprintf("entries-not-durable: entry %d (term %d) was acknowledged as saved, after the power cut it is missing", x.index, x.term)
 				}
 			}
 		}
@@ -491,6 +496,34 @@ func (r *repState) cloneState() *repState {
 	c := *r
 	c.img = r.img.clone()
 	return &c
+}
+
+func (r *repState) badText() string {
+	if r.badWhy != "" {
+		return r.badWhy
+	}
+	return codeText[r.badCode]
+}
+
+// commit index of the shadow of e's replica just before event e (for the lag count)
+func shadowCommitBefore(evs []event, c event) uint64 {
+	g := &image{}
+	for i := range evs {
+		e := evs[i]
+		if e.kind == 'C' && e.k == c.k && e.rec.term == c.rec.term && e.rec.commit == c.rec.commit && len(e.rec.log) == len(c.rec.log) {
+			return g.commit
+		}
+		if e.k != c.k {
+			continue
+		}
+		switch e.kind {
+		case 'P':
+			g.persist(e.u)
+		case 'C':
+			g = e.rec.clone()
+		}
+	}
+	return g.commit
 }
 
 func (r *repState) verdict() string {
